@@ -226,6 +226,39 @@ theorem spec_unset_touching_readonly_fails (X : SSet) (n : Name) (k j : Nat) (c 
           · simp only [hw, if_true]; exact hw
           · simp only [hw]; exact this
 
+/-- ★ `readonly_immutable` for the whole `typeset` option family (coverage round): whatever the
+    scope (`-g` or local), the attribute options (`-r -x -X +x +r`, in any order and number) and
+    the operands (`m` or `m=v`, any number), running `typeset` in a reachable set keeps every
+    read-only instance with its value and mark; in particular `+r` never cancels read-only-ness
+    and a refused `m=v` changes nothing -/
+theorem typeset_readonly_immutable (ops : List Op) (sc : Scope) (attrs operands : List String)
+    (n : Name) (e : VIC) (he : e ∈ (VariableSet.new.run ops).all n) (hro : e.var.isReadOnly = true) :
+    ∃ e' ∈ (operands.foldl (typesetField ifaceM sc attrs) (VariableSet.new.run ops)).all n,
+      e'.var.isReadOnly = true ∧ e'.var.value = e.var.value ∧ e'.var.readOnly = e.var.readOnly := by
+  have hG : Good (VariableSet.new.run ops) := run_shadow norm_init (fun _ => trivial) ops
+  have : ∀ (operands : List String) (s : VariableSet), Good s →
+      KeepsAll s (operands.foldl (typesetField ifaceM sc attrs) s) := by
+    intro operands
+    induction operands with
+    | nil => intro s _; exact keepsAll_refl s
+    | cons t rest ih =>
+      intro s hs
+      have h1 := typesetField_keeps sc attrs s t hs
+      exact keepsAll_trans h1.1 (ih _ h1.2)
+  obtain ⟨e', he', h1, h2⟩ := this operands _ hG n e he hro
+  exact ⟨e', he', h1, h2.1, h2.2⟩
+
+/-- `typeset +r -X x` on a read-only exported `x`: `+r` is an error and `-X` is skipped;
+    `typeset -X +r x`: unexported, still read-only -/
+example : ((applyAttrs ifaceM "x" .global ["+r", "-X"]
+      (VariableSet.new.run [.assign "x" .global (.scalar "1") none, .export "x" .global true,
+        .readonly "x" .global 7])).get "x")
+    = some { value := some (.scalar "1"), exported := true, readOnly := some 7 } := by decide
+example : ((applyAttrs ifaceM "x" .global ["-X", "+r"]
+      (VariableSet.new.run [.assign "x" .global (.scalar "1") none, .export "x" .global true,
+        .readonly "x" .global 7])).get "x")
+    = some { value := some (.scalar "1"), exported := false, readOnly := some 7 } := by decide
+
 /-! ### lifetime of temporary assignments, locals and positional parameters (Exec level)
 
   Commands are compiled to operations by `Exec.lean` (the scope choice of `perform_assignments` and
